@@ -24,7 +24,67 @@ func JSONStringToElement(jsonStr *value.String) (r.Element, error) {
 		return nil, value.ThrowException("解析JSON失败 - " + err.Error())
 	}
 
-	return buildElementFromPlainValue(plainMap), nil
+	// the document is a valid JSON object: decode it once more token by token, so that
+	// dictionaries keep the key order of the document (a Go map has no order)
+	decoder := json.NewDecoder(bytes.NewReader(vdata))
+	elem, err := decodeJSONElementInOrder(decoder)
+	if err != nil {
+		return nil, value.ThrowException("解析JSON失败 - " + err.Error())
+	}
+	return elem, nil
+}
+
+// decodeJSONElementInOrder - read ONE JSON value from the token stream
+func decodeJSONElementInOrder(decoder *json.Decoder) (r.Element, error) {
+	token, err := decoder.Token()
+	if err != nil {
+		return nil, err
+	}
+	switch tk := token.(type) {
+	case json.Delim:
+		switch tk {
+		case '{':
+			target := value.NewEmptyHashMap()
+			for decoder.More() {
+				keyToken, err := decoder.Token()
+				if err != nil {
+					return nil, err
+				}
+				key, ok := keyToken.(string)
+				if !ok {
+					return nil, fmt.Errorf("invalid object key %v", keyToken)
+				}
+				item, err := decodeJSONElementInOrder(decoder)
+				if err != nil {
+					return nil, err
+				}
+				target.AppendKVPair(value.KVPair{Key: key, Value: item})
+			}
+			// consume '}'
+			if _, err := decoder.Token(); err != nil {
+				return nil, err
+			}
+			return target, nil
+		case '[':
+			target := value.NewEmptyArray()
+			for decoder.More() {
+				item, err := decodeJSONElementInOrder(decoder)
+				if err != nil {
+					return nil, err
+				}
+				target.AppendValue(item)
+			}
+			// consume ']'
+			if _, err := decoder.Token(); err != nil {
+				return nil, err
+			}
+			return target, nil
+		}
+		return nil, fmt.Errorf("unexpected delimiter %v", tk)
+	default:
+		// null, bool, float64, string
+		return buildElementFromPlainValue(token), nil
+	}
 }
 
 func ElementToJSONString(elem r.Element) (*value.String, error) {
